@@ -21,6 +21,8 @@ var g2GeneratorTableOnce sync.Once
 
 func (g *G2) generatorTable() *[32 * 2]twistPointTable {
 	g2GeneratorTableOnce.Do(func() {
+		verifGate("init:bn256.g2Table")
+		defer verifGate("inited:bn256.g2Table")
 		g2GeneratorTable = new([32 * 2]twistPointTable)
 		base := NewTwistGenerator()
 		for i := 0; i < 32*2; i++ {
@@ -68,6 +70,7 @@ func (g *G2) generatorTable() *[32 * 2]twistPointTable {
 			base.Double(base)
 		}
 	})
+	verifGate("done:bn256.g2Table")
 	return g2GeneratorTable
 }
 
